@@ -200,6 +200,24 @@ def R2_constants_validated(run):
               "changing the constants does not unconditionally reset the adaptive-fee variables (stale variables can exceed the new maximum)", loc=h.loc(), detail="reset on every success path, after validation")
 
 
+def _root_local(fn, l):
+    """The local a reference / copy chain of single-assignment temporaries starts from (`_a = &_b; _c = copy _a` -> _b): a read
+    through a reference handed to a spliced-in helper is a read of the referenced object."""
+    for _ in range(8):
+        defs = [st for bb in fn.blocks for st in bb["s"] if st["k"] == "=" and st["p"].get("l") == l and "p" not in st["p"]]
+        defs += [bb["t"] for bb in fn.blocks if bb["t"]["k"] == "call" and bb["t"]["d"].get("l") == l and "p" not in bb["t"]["d"]]
+        if len(defs) != 1 or "rv" not in defs[0]:
+            return l
+        rv = defs[0]["rv"]
+        if "ref" in rv and ("p" not in rv["ref"] or rv["ref"]["p"] == ["*"]):
+            l = rv["ref"]["l"]      # &x, or the re-borrow &*r of a reference r
+        elif "use" in rv and isinstance(rv["use"], dict) and (rv["use"].get("cp") or rv["use"].get("mv")) and "p" not in (rv["use"].get("cp") or rv["use"].get("mv")):
+            l = (rv["use"].get("cp") or rv["use"].get("mv"))["l"]
+        else:
+            return l
+    return l
+
+
 def R3_reference_update(run):
     run.title("R3", "update_reference: now < max(last_reference_update, last_major_swap) => InvalidTimestamp; age > 3600 => reset; elapsed < filter => unchanged; elapsed < decay "
                     "=> reference := accumulator * reduction / 10_000; else reset; called exactly once, in FeeRateManager::new, with the start tick group")
@@ -312,7 +330,7 @@ def R3_reference_update(run):
                         if isinstance(o_, dict):
                             places.append(o_.get("cp") or o_.get("mv"))
                 for pl_ in places:
-                    if pl_ and "p" in pl_ and any(isinstance(e, dict) and e.get("f") == fld for e in pl_["p"]) and pl_["l"] != obj:
+                    if pl_ and "p" in pl_ and any(isinstance(e, dict) and e.get("f") == fld for e in pl_["p"]) and _root_local(nw, pl_["l"]) != obj:
                         late.append(fld + " (read from another copy than the updated one)")
         run.check("R3", "range-from-updated-reference", obj is not None and not late and bool(field_reads(nw, "volatility_reference")) and bool(field_reads(nw, "tick_group_index_reference")),
                   "FeeRateManager::new reads %s before update_reference(): the saturation (skip) range would be sized from the stale reference" % sorted(set(late)), loc=nw.loc(),
@@ -445,9 +463,40 @@ def R5_stored_variables(run):
             ok = bool(oa) and acc(oa[0][2][0]) == "whirlpool" and acc(oa[0][2][1]) == "oracle"
         run.check("R5", "handler@" + hp, ok, "%s does not store swap_update.next_adaptive_fee_info through the accessor of (whirlpool, oracle)" % hp, loc=h.loc(), detail="accessor(whirlpool, oracle).update(next info)?")
     u = facts.need_fn("state::oracle::OracleAccessor::<'info>::update_adaptive_fee_variables")
-    cs = calls_to(u, ends("Oracle::update_adaptive_fee_variables"))
-    ok = len(cs) == 1 and arg_name(cs[0][2][1]) == "variables"
-    run.check("R5", "accessor-stores-variables", ok, "the accessor does not store adaptive_fee_info.variables", loc=u.loc(), detail="oracle.update_adaptive_fee_variables(info.variables)")
+    # read with load_mut and Oracle::update_adaptive_fee_variables spliced in: one store, adaptive_fee_variables := info.variables,
+    # into the Oracle mapped over this accessor's own account data behind its discriminator, after the writability test
+    run.touch(u)
+    pvu = prov_of(u)
+    sts = [w for w in writes.field_stores(facts) if w["fn"] is u and w["adt"] == "state::oracle::Oracle"]
+    ok = len(sts) == 1 and sts[0]["field"] == "adaptive_fee_variables"
+    why = "stores into Oracle fields %s" % sorted(w["field"] for w in sts)
+    if ok:
+        w = sts[0]
+        st_ = u.blocks[w["block"]]["s"][w["stmt"]]
+        val = pvu._rvalue(w["rv"], w["block"], w["stmt"], 0)
+        base = pvu.local(st_["p"]["l"], w["block"], w["stmt"])
+        ok = arg_name(val) == "variables" and mentions(val, lambda t: t[0] == "param" and t[1] == "adaptive_fee_info")
+        why = "stores %s" % sh(val, 60)
+        if ok:
+            ok = mentions(base, lambda t: t[0] == "call" and t[1].endswith("try_borrow_mut_data") and is_field(t[2][0], "oracle_account_info") and acc_chain(t[2][0]) is None)
+            why = "stores into %s" % sh(base, 80)
+        if ok:
+            cl = [t for t in subterms(base) if t[0] == "closure"]
+            cf = facts.fn(cl[0][1]) if len(cl) == 1 else None
+            sl = []
+            if cf is not None:
+                pc = prov_of(cf)
+                for bi_, t_ in cf.calls():
+                    if (callee_path(t_) or "").endswith("from_bytes_mut"):
+                        sl = [x for x in subterms(pc.operand(t_["a"][0], bi_, len(cf.blocks[bi_]["s"]))) if x[0] == "agg" and x[1].endswith("Range")]
+            ok = len(sl) == 1 and const_val(dict(sl[0][3])["start"]) == 8
+            why = "the Oracle view does not start behind the 8-byte discriminator"
+        if ok:
+            wr = [at for at in A.atoms(u) if mentions(at.term, lambda t: t[0] == "field" and t[2] == "is_writable") and at.false_fail]
+            ok = len(wr) == 1 and A.guarded_by(u, wr[0], w["block"])
+            why = "the store is not behind the writability test of the oracle account"
+    run.check("R5", "accessor-stores-variables", ok, "the accessor does not store adaptive_fee_info.variables into its own writable oracle account: %s" % why, loc=u.loc(),
+              detail="oracle(view of oracle_account_info data[8..]).adaptive_fee_variables := info.variables, after !is_writable => AccountNotMutable")
 
 
 def _is_self_field(t, name):
